@@ -12,3 +12,5 @@ import ScadVerif.Props.C04
 import ScadVerif.Props.C05
 import ScadVerif.Props.C14
 import ScadVerif.Props.C16
+import ScadVerif.Props.C15
+import ScadVerif.Props.C17
